@@ -240,7 +240,7 @@ class Dot(CompoundTensorOperator):
         return f"{parstr(self.ufl_operands[0], self)} . {parstr(self.ufl_operands[1], self)}"
 
 
-@ufl_type(is_index_free=True, num_ops=1)
+@ufl_type(num_ops=1, inherit_indices_from_operand=0)
 class Perp(CompoundTensorOperator):
     """Perp."""
 
